@@ -48,19 +48,37 @@ KFlag(st, c) ==
   ELSE IF SubSeq(c, 1, 5) = "bind." /\ KF_dropkw(st.shape) /\ ImplAccepts(Ms, st.shape) THEN "d"
   ELSE "0"
 
+(* Extra (not one of the listed properties; reported, never a verdict):       *)
+(*   X1:signature_is_model   the recorded parameter list is SigPositional /   *)
+(*                           SigKwReq / SigKwOpt (Impl layer of the analyser) *)
+(*   X1:signature_admits_accepted_shape  a call shape that ran a method binds *)
+(*                           under inspect.signature(f)                       *)
+SigClause ==
+  IF ~("sig" \in DOMAIN Case) \/ Conflict(Ms) THEN ""
+  ELSE LET sg == Case.sig
+           pos == SelectSeq(sg, LAMBDA p : p.kind # "kw")
+           kwr == {sg[j].name : j \in {j \in DOMAIN sg : sg[j].kind = "kw" /\ sg[j].req}}
+           kwo == {sg[j].name : j \in {j \in DOMAIN sg : sg[j].kind = "kw" /\ ~sg[j].req}}
+       IN IF pos # SigPositional(Ms) \/ kwr # SigKwReq(Ms) \/ kwo # SigKwOpt(Ms) THEN "X1:signature_is_model@0#0" ELSE ""
+BindClauseX(st, k) ==
+  IF "bindok" \in DOMAIN st /\ st.obs.kind \in {"run", "raised"} /\ ~st.bindok /\ ~Conflict(Ms)
+  THEN "X1:signature_admits_accepted_shape@" \o ToString(k) \o "#0" ELSE ""
+
+Join(a, b) == IF a = "" THEN b ELSE IF b = "" THEN a ELSE a \o "," \o b
+
 Init == i \in 1..Len(Cases) /\ l = 1 /\ bad = "" /\ fin = FALSE
 
 Consume ==
   /\ ~fin /\ l <= Len(Case.steps)
   /\ LET st == Case.steps[l]  c == StepClause(st) IN
-       bad' = IF c # "" THEN bad \o (IF bad = "" THEN "" ELSE ",") \o "C03:" \o c \o "@" \o ToString(l) \o "#" \o KFlag(st, c)
-              ELSE bad
+       bad' = Join(IF c # "" THEN Join(bad, "C03:" \o c \o "@" \o ToString(l) \o "#" \o KFlag(st, c)) ELSE bad,
+                   BindClauseX(st, l))
   /\ l' = l + 1
   /\ UNCHANGED <<i, fin>>
 
 Finish ==
   /\ ~fin /\ l > Len(Case.steps)
-  /\ PrintT("VERDICT|" \o Case.id \o "|" \o bad \o "|kf=0;drift=0")
+  /\ PrintT("VERDICT|" \o Case.id \o "|" \o Join(bad, SigClause) \o "|kf=0;drift=0")
   /\ fin' = TRUE
   /\ UNCHANGED <<i, l, bad>>
 
